@@ -207,7 +207,22 @@ def Atom.eff (s : PState) (a : Atom) : PState := if a.guard s then a.rawEff s el
 
 def fixSync (c : Cfg) (p : Path) : List Atom := if c.dirSyncFix then [.sync p, .syncDir] else []
 
-/-- `valueLog.write` for one request holding the transaction `t` -/
+/-- `valueLog.write`, the part for one request holding the transaction `t`: the stores and,
+    after the request, `toDisk` (rotation when the file has enough entries) -/
+def vlogReqProg (s : PState) (t : Txn) : List Atom :=
+  let bigs := t.ents.filter (fun e => e.vfid ≠ 0)
+  let puts := bigs.map (fun e => Atom.vput e.key e.ver)
+  let n := s.vcount + bigs.length
+  let rot : List Atom :=
+    if n > s.cfg.vlogMaxEntries then
+      (if s.cfg.syncWrites then [Atom.sync (.vlog s.vfid)] else []) ++
+      (if bigs.isEmpty then [] else [Atom.vtrunc]) ++
+      [.vrot, .vhdr, .zero (.vlog (s.vfid + 1))] ++ fixSync s.cfg (.vlog (s.vfid + 1))
+    else []
+  puts ++ rot
+
+/-- `valueLog.write` for a call with the single request `t` (the deferred msync of the
+    current file closes every call when SyncWrites) -/
 def vlogProg (s : PState) (t : Txn) : List Atom :=
   let bigs := t.ents.filter (fun e => e.vfid ≠ 0)
   let puts := bigs.map (fun e => Atom.vput e.key e.ver)
